@@ -174,7 +174,7 @@ def check(case, ctx):
         ok, r = ctx.call(cg.tx.unroll, c, n, dict(state_io), prefix=case["prefix"])
         what = f"unroll(n={n}, state_io={state_io})"
         if not ok:
-            if case.get("hostile") and isinstance(r, ValueError):
+            if case.get("hostile") and isinstance(r, ValueError) and ("already" in str(r) or "overlap" in str(r)):
                 ctx.reject("name_clash")
                 return
             ctx.violation("unroll_raised", f"{what} raised {r!r}\n{getattr(r, '_tb', '')}")
